@@ -105,6 +105,18 @@ fn main() {
             }
             println!("}}");
         }
+        "preds" => {
+            // the five Modifiers predicates under all 512 modifier sets (cellcheck::all_mods order), as JSON strings of 0/1
+            let ms = cellcheck::all_mods();
+            let row = |f: &dyn Fn(&Modifiers) -> bool| ms.iter().map(|m| if f(m) { '1' } else { '0' }).collect::<String>();
+            println!("{{");
+            println!("\"is_shifted\": \"{}\",", row(&|m| m.is_shifted()));
+            println!("\"is_ctrl\": \"{}\",", row(&|m| m.is_ctrl()));
+            println!("\"is_alt\": \"{}\",", row(&|m| m.is_alt()));
+            println!("\"is_altgr\": \"{}\",", row(&|m| m.is_altgr()));
+            println!("\"is_caps\": \"{}\"", row(&|m| m.is_caps()));
+            println!("}}");
+        }
         "layout-table" => {
             // layout-table <layout>: for every key the decoded value under all 512 modifier sets x 2 modes (mode-major), as JSON
             let l = &args[2];
